@@ -1,8 +1,8 @@
 (* Model of ariadne_codegen/settings.py and ariadne_codegen/config.py (C17).
    Executable definitions only.  The configuration is the JSON image of the TOML dictionary; the
    file system, the process environment and the working directory are the finite record [env].
-   Every check is in the order of the Python code; defects are reproduced (a Python keyword passes
-   assert_string_is_valid_python_identifier; fragments_module_name is never checked).
+   Every check is in the order of the Python code (as of /repo 0631414: keywords are refused by
+   assert_string_is_valid_python_identifier, fragments_module_name is checked like the other names).
    Scope: configurations whose known keys carry values of the expected TOML type ([Ill] otherwise);
    ASCII names; paths as literal strings (the harness keys [e_paths] by the string in the config). *)
 From Coq Require Import List String Ascii ZArith Bool.
@@ -96,9 +96,9 @@ Definition assert_path_is_valid_directory (e : env) (p : string) : option err :=
   if p_is_dir e p then None else Some (mkerr InvalidConfiguration (msg_not_dir p)).
 Definition assert_path_is_valid_file (e : env) (p : string) : option err :=
   if p_is_file e p then None else Some (mkerr InvalidConfiguration (msg_not_file p)).
-(* `if not name.isidentifier() and not iskeyword(name): raise` — as written in the code *)
+(* `if not name.isidentifier() or iskeyword(name): raise` — as written in the code *)
 Definition assert_identifier (n : string) : option err :=
-  if negb (is_identifier n) && negb (is_kw n)
+  if negb (is_identifier n) || is_kw n
   then Some (mkerr InvalidConfiguration (msg_not_ident n)) else None.
 
 (* substring test:  needle in hay *)
@@ -417,7 +417,8 @@ Definition client_asserts (e : env) (r : craw) : list (option err) :=
     assert_path_is_valid_file e bp;
     (if p_is_file e bp then assert_class_is_defined_in_file e bp bn else None);
     assert_identifier (r_enums r);
-    assert_identifier (r_inputs r) ]
+    assert_identifier (r_inputs r);
+    assert_identifier (r_fragments r) ]
   ++ map (assert_path_is_valid_file e) (r_files r).
 
 Definition client_post_init (e : env) (r : craw) (scalars : list scalar) : res csettings :=
@@ -575,47 +576,33 @@ Definition base_constraints (e : env) (b : braw) : list (string * bool) :=
 Definition class_defined (e : env) (p n : string) : bool :=
   match p_read e p with Some c => contains ("class " ++ n) c | None => false end.
 
-(* [strict]: true = the documented reading (keywords are not usable names, fragments_module_name is a
-   module name like the others); false = what the code enforces *)
-Definition name_ok (strict : bool) (s : string) : bool :=
-  if strict then usable_name s else is_identifier s || is_kw s.
-
-Definition client_constraints (strict : bool) (e : env) (r : craw) : list (string * bool) :=
+Definition client_constraints (e : env) (r : craw) : list (string * bool) :=
   let '(bp, bn) := base_client_of e r in
   [ ("queries-path-given", negb (String.eqb (r_queries_path r) "" && negb (b_custom_ops (r_base r)))) ]
   ++ base_constraints e (r_base r) ++
   [ ("include-comments", valid_comment (r_comments r));
     ("queries-path-exists", p_exists e (r_queries_path r));
-    ("target-package-name", name_ok strict (r_pkg_name r));
+    ("target-package-name", usable_name (r_pkg_name r));
     ("target-package-path-dir", p_is_dir e (pkg_path_of e r));
-    ("client-name", name_ok strict (r_client_name r));
-    ("client-file-name", name_ok strict (r_client_file r));
-    ("base-client-name", name_ok strict bn);
+    ("client-name", usable_name (r_client_name r));
+    ("client-file-name", usable_name (r_client_file r));
+    ("base-client-name", usable_name bn);
     ("base-client-file", p_is_file e bp);
     ("base-client-class", negb (p_is_file e bp) || class_defined e bp bn);
-    ("enums-module-name", name_ok strict (r_enums r));
-    ("input-types-module-name", name_ok strict (r_inputs r));
-    ("fragments-module-name", if strict then usable_name (r_fragments r) else true);
+    ("enums-module-name", usable_name (r_enums r));
+    ("input-types-module-name", usable_name (r_inputs r));
+    ("fragments-module-name", usable_name (r_fragments r));
     ("files-to-include", forallb (p_is_file e) (r_files r)) ].
 
-Definition schema_constraints (strict : bool) (e : env) (r : graw) : list (string * bool) :=
+Definition schema_constraints (e : env) (r : graw) : list (string * bool) :=
   base_constraints e (gr_base r) ++
   [ ("target-file-type", match assert_schema_target_filename (gr_target r) with None => true | Some _ => false end);
-    ("schema-variable-name", name_ok strict (gr_schema_var r));
-    ("type-map-variable-name", name_ok strict (gr_type_map_var r)) ].
+    ("schema-variable-name", usable_name (gr_schema_var r));
+    ("type-map-variable-name", usable_name (gr_type_map_var r)) ].
 
 Definition all_hold (l : list (string * bool)) : bool := forallb snd l.
 Definition violated (l : list (string * bool)) : list string :=
   map fst (filter (fun p => negb (snd p)) l).
-
-(* the finding class F16 as a boolean guard: no keyword among the checked names, fragments name usable *)
-Definition g_c17_client (e : env) (r : craw) : bool :=
-  let '(_, bn) := base_client_of e r in
-  negb (is_kw (r_pkg_name r)) && negb (is_kw (r_client_name r)) && negb (is_kw (r_client_file r))
-  && negb (is_kw bn) && negb (is_kw (r_enums r)) && negb (is_kw (r_inputs r))
-  && usable_name (r_fragments r).
-Definition g_c17_schema (r : graw) : bool :=
-  negb (is_kw (gr_schema_var r)) && negb (is_kw (gr_type_map_var r)).
 
 (* ---------- sexp interface ---------- *)
 Definition dPkind (e : sexp) : option pkind :=
@@ -665,8 +652,7 @@ Definition client_info (e : env) (cfg : json) : sexp :=    (* constraint tables 
   match get_section cfg with
   | Ok (_, kv) =>
       match decode_client kv with
-      | Some r => L [sCons (client_constraints false e r); sCons (client_constraints true e r);
-                     sB (g_c17_client e r)]
+      | Some r => L [sCons (client_constraints e r)]
       | None => L [A "ill"]
       end
   | _ => L [A "nosection"]
@@ -675,8 +661,7 @@ Definition schema_info (e : env) (cfg : json) : sexp :=
   match get_section cfg with
   | Ok (_, kv) =>
       match decode_schema kv with
-      | Some r => L [sCons (schema_constraints false e r); sCons (schema_constraints true e r);
-                     sB (g_c17_schema r)]
+      | Some r => L [sCons (schema_constraints e r)]
       | None => L [A "ill"]
       end
   | _ => L [A "nosection"]
